@@ -45,6 +45,9 @@ var solvers = []solverSpec{
 
 var cacheDir = "/verif/.cache"
 var useCache = true
+
+// currentProp: the property being checked (interfere[...] directives apply per property)
+var currentProp string
 var cacheMu sync.Mutex
 var fileCtr int64
 
